@@ -26,16 +26,19 @@ type snap struct {
 
 // adapter of one token type for the history search
 type hstate struct {
-	typ       int
-	snaps     []snap
-	fields    func() map[string][]byte // live exported request fields (and client key for type 3)
-	marshal   func() []byte            // Request().Marshal()
-	handEnc   []byte                   // encoding of the request as created, assembled by hand from its fields at creation
-	finalize  func(resp []byte) ([]tokens.Token, error)
-	evaluate  func() ([]byte, error) // issuer evaluates the live request object
-	verify    func(t tokens.Token) error
-	validResp []byte
-	lastToken *tokens.Token
+	typ        int
+	snaps      []snap
+	fields     func() map[string][]byte // live exported request fields (and client key for type 3)
+	marshal    func() []byte            // Request().Marshal()
+	unmarshal  func(b []byte) bool      // Request().Unmarshal(b)
+	otherEnc   []byte                   // a valid encoding of another request of the same type
+	handEnc    []byte                   // encoding of the request as created, assembled by hand from its fields at creation
+	finalize   func(resp []byte) ([]tokens.Token, error)
+	evaluate   func() ([]byte, error) // issuer evaluates the live request object
+	verify     func(t tokens.Token) error
+	validResp  []byte
+	lastToken  *tokens.Token
+	holdsOther bool // the request object currently holds the other request (after decode-other-request)
 }
 
 func (s *hstate) record(name string, live func() []byte) {
@@ -72,9 +75,13 @@ func initState(typ int) *hstate {
 			panic(err)
 		}
 		r := st.Request()
-		s.handEnc = append(append([]byte{0, 1, r.TokenKeyID}), r.BlindedReq...)
+		s.handEnc = append([]byte{0, 1, r.TokenKeyID}, r.BlindedReq...)
 		s.fields = func() map[string][]byte { return map[string][]byte{"Request().BlindedReq": st.Request().BlindedReq} }
 		s.marshal = func() []byte { return st.Request().Marshal() }
+		s.unmarshal = func(b []byte) bool { return st.Request().Unmarshal(b) }
+		if o, err := w.Create(chal, mc.Fill(seedv, "c16h-other-nonce", 32), nil); err == nil {
+			s.otherEnc = append([]byte{}, o.Request().Marshal()...)
+		}
 		s.finalize = func(resp []byte) ([]tokens.Token, error) {
 			t, err := st.FinalizeToken(resp)
 			return []tokens.Token{t}, err
@@ -94,9 +101,13 @@ func initState(typ int) *hstate {
 			panic(err)
 		}
 		r := st.Request()
-		s.handEnc = append(append([]byte{0, 2, r.TokenKeyID}), r.BlindedReq...)
+		s.handEnc = append([]byte{0, 2, r.TokenKeyID}, r.BlindedReq...)
 		s.fields = func() map[string][]byte { return map[string][]byte{"Request().BlindedReq": st.Request().BlindedReq} }
 		s.marshal = func() []byte { return st.Request().Marshal() }
+		s.unmarshal = func(b []byte) bool { return st.Request().Unmarshal(b) }
+		if o, err := w.Create(chal, mc.Fill(seedv, "c16h-other-nonce", 32), nil, nil); err == nil {
+			s.otherEnc = append([]byte{}, o.Request().Marshal()...)
+		}
 		s.finalize = func(resp []byte) ([]tokens.Token, error) {
 			t, err := st.FinalizeToken(resp)
 			return []tokens.Token{t}, err
@@ -120,7 +131,7 @@ func initState(typ int) *hstate {
 		for _, e := range r.BlindedReq {
 			els = append(els, e...)
 		}
-		s.handEnc = append(append([]byte{0, 5, r.TokenKeyID, 0x40, byte(len(els))}), els...)
+		s.handEnc = append([]byte{0, 5, r.TokenKeyID, 0x40, byte(len(els))}, els...)
 		s.fields = func() map[string][]byte {
 			m := map[string][]byte{}
 			for i, e := range st.Request().BlindedReq {
@@ -129,6 +140,10 @@ func initState(typ int) *hstate {
 			return m
 		}
 		s.marshal = func() []byte { return st.Request().Marshal() }
+		s.unmarshal = func(b []byte) bool { return st.Request().Unmarshal(b) }
+		if o, err := w.Create(chal, [][]byte{mc.Fill(seedv, "c16h-other-nonce", 32), mc.Fill(seedv, "c16h-other-nonce2", 32)}, nil); err == nil {
+			s.otherEnc = append([]byte{}, o.Request().Marshal()...)
+		}
 		s.finalize = func(resp []byte) ([]tokens.Token, error) { return st.FinalizeTokens(resp) }
 		s.evaluate = func() ([]byte, error) { return w.Issuer.Evaluate(st.Request()) }
 		s.verify = func(t tokens.Token) error { return w.Issuer.Verify(t) }
@@ -159,6 +174,12 @@ func initState(typ int) *hstate {
 			return map[string][]byte{"Request().RequestKey": q.RequestKey, "Request().NameKeyID": q.NameKeyID, "Request().EncryptedTokenRequest": q.EncryptedTokenRequest, "Request().Signature": q.Signature, "ClientKey()": st.ClientKey()}
 		}
 		s.marshal = func() []byte { return st.Request().Marshal() }
+		s.unmarshal = func(b []byte) bool { return st.Request().Unmarshal(b) }
+		a2 := a
+		a2.Nonce, a2.Origin = mc.Fill(seedv, "c16h-other-nonce", 32), "origin.example"
+		if o, err := w.Create(a2); err == nil {
+			s.otherEnc = append([]byte{}, o.Request().Marshal()...)
+		}
 		s.finalize = func(resp []byte) ([]tokens.Token, error) {
 			t, err := st.FinalizeToken(resp)
 			return []tokens.Token{t}, err
@@ -176,7 +197,7 @@ func initState(typ int) *hstate {
 	return s
 }
 
-var histOps = []string{"snap-fields", "snap-marshal", "marshal", "finalize-valid", "finalize-invalid", "evaluate", "verify-token"}
+var histOps = []string{"snap-fields", "snap-marshal", "marshal", "finalize-valid", "finalize-invalid", "evaluate", "verify-token", "decode-other-request", "decode-own-request"}
 
 func applyHist(s *hstate, op hop) (string, *mc.Viol) {
 	out := op.Op
@@ -184,15 +205,23 @@ func applyHist(s *hstate, op hop) (string, *mc.Viol) {
 	pan := mc.Catch(func() {
 		switch op.Op {
 		case "snap-fields":
-			for name := range s.fields() {
-				name := name
-				s.record(name, func() []byte { return s.fields()[name] })
+			// the hand-out is the slice the caller received at this moment (captured), not whatever
+			// the field points to later
+			for name, v := range s.fields() {
+				v := v
+				s.record(name, func() []byte { return v })
 			}
 		case "snap-marshal":
 			m := s.marshal()
 			s.record("the encoding returned by Request().Marshal()", func() []byte { return m })
 		case "marshal":
 			m := s.marshal()
+			if s.holdsOther {
+				if !bytes.Equal(m, s.otherEnc) {
+					v = &mc.Viol{Sig: fmt.Sprintf("type%d: Request().Marshal() does not encode the request that was decoded into the object", s.typ), What: fmt.Sprintf("got %x… want %x…", m[:min(len(m), 24)], s.otherEnc[:min(len(s.otherEnc), 24)])}
+				}
+				return
+			}
 			if !bytes.Equal(m, s.handEnc) {
 				v = &mc.Viol{Sig: fmt.Sprintf("type%d: Request().Marshal() no longer encodes the request that was created", s.typ), What: fmt.Sprintf("got %x… want %x…", m[:min(len(m), 24)], s.handEnc[:min(len(s.handEnc), 24)])}
 			}
@@ -233,6 +262,19 @@ func applyHist(s *hstate, op hop) (string, *mc.Viol) {
 				return
 			}
 			s.record("an issuer response", func() []byte { return resp })
+		case "decode-other-request", "decode-own-request":
+			// the request object is reused as a decoder (issuer-side reuse, retransmission buffers):
+			// values handed out before must keep their bytes, and Marshal must afterwards encode
+			// the value the object now holds
+			enc, holds := s.otherEnc, "other"
+			if op.Op == "decode-own-request" {
+				enc, holds = s.handEnc, "own"
+			}
+			if !s.unmarshal(append([]byte{}, enc...)) {
+				v = &mc.Viol{Sig: fmt.Sprintf("type%d: request object rejects a valid encoding when reused", s.typ), What: holds}
+				return
+			}
+			s.holdsOther = holds == "other"
 		case "verify-token":
 			if s.lastToken == nil || s.verify == nil {
 				out = "verify-token:none"
